@@ -1589,6 +1589,13 @@ sf_seek	(SNDFILE *sndfile, sf_count_t offset, int whence)
 
 		retval = psf->seek (psf, new_mode, seek_from_start) ;
 
+		/* A failed seek (the codec has recorded the error) must leave the read and write positions as they were. */
+		if (retval < 0)
+		{	if (psf->error == SFE_NO_ERROR)
+				psf->error = SFE_BAD_SEEK ;
+			return PSF_SEEK_ERROR ;
+			} ;
+
 		switch (new_mode)
 		{	case SFM_READ :
 					psf->read_current = retval ;
